@@ -142,7 +142,9 @@ class DashTiming:
         if self.elapsedTime.total_seconds() < self.timeShiftBufferDepth:
             self.timeShiftBufferDepth = int(self.elapsedTime.total_seconds())
         logging.debug('timeShiftBufferDepth: %d seconds', self.timeShiftBufferDepth)
-        default_mup = round(2.0 * self.stream_reference.segment_duration / self.stream_reference.timescale)
+        # at least one second, as publishTime is quantised using this value
+        default_mup = max(1, round(
+            2.0 * self.stream_reference.segment_duration / self.stream_reference.timescale))
         self.minimumUpdatePeriod = options.minimumUpdatePeriod
         if self.minimumUpdatePeriod is None:
             self.minimumUpdatePeriod = default_mup
